@@ -1261,6 +1261,7 @@ pub fn run(out: &mut Out, tier: &str, seed: u64, prop: &str) {
                         if m.is_false() || deprecated { out.stat("c05.carve_out_equivalence") } else { out.stat("c05.strict_equality") }
                         let de: Result<MarkerTree, _> = serde_json::from_str(&serde_json::to_string(&text).unwrap());
                         if de.ok().map(|d| d == back) != Some(true) { out.oracle_fail("C05", "deserialization differs from FromStr", input.clone()); }
+                        if de_sources::<MarkerTree>(&text).iter().any(|d| d.as_ref() != Some(&back)) { out.oracle_fail("C05", "deserialization depends on how the JSON string is written / owned (plain, escaped, owned value)", input.clone()); }
                     }
                     Ok(Err(e)) => out.oracle_fail("C05", &format!("the displayed text does not parse: {}", e.message), input.clone()),
                     Err(_) => { out.oracle_fail("C05", "panic while parsing the displayed text", input.clone()); return }
